@@ -18,7 +18,7 @@ MANIFEST = {
             'as array literals and as referenced ranges; every result shape <= 4x4 (also produced next to an error-valued scalar operand) is stored into every destination shape <= 4x4; CONCATENATE/IFS/SWITCH are '
             'called with 1..40 arguments with the non-scalar argument first, 31st..33rd and last (thorough: every position; plus mixed literal/reference '
             'spelling, four 4-argument calls and five more result producers).  Each array result is compared position by position with the '
-            'implementation\'s own scalar result for the element tuple selected by the reference broadcasting / fitting rule; nothing sampled. The argument-count space also uses arrays whose elements are equal as Python values but of different Excel kinds ({1,TRUE,1,"1"}, {0,FALSE;"",0}).',
+            'implementation\'s own scalar result for the element tuple selected by the reference broadcasting / fitting rule; nothing sampled. The argument-count space also uses arrays whose elements are equal as Python values but of different Excel kinds ({1,TRUE,1,"1"}, {0,FALSE;"",0}).' ' Later additions: destinations one row and column larger than the common extent (padding with #N/A), a range read twice in one formula by a numeric and a blank-sensitive reader, padded IS* results, elements on which the wrapped function itself raises, mixed error kinds with precedence.',
     'note': 'Trusted: ref/lift.py (audited against the Excel-computed array formulas of test.xlsx); scalar semantics are taken from the implementation and judged by C02/C12; '
             'non-stretchable shape pairs and shapes beyond the bound are not decided.',
 }
